@@ -1,5 +1,9 @@
 //go:build convergen
 
+// Package sel has a package comment whose lines look like a doc comment with notations; it is
+// nobody's doc comment but the package's.
+// :skip ID
+// :typecast
 package sel
 
 // An ordinary declaration before the interfaces.
